@@ -59,7 +59,7 @@ def cases(tier, seed):
 def variant_names():
     return ["base", "flx_shape", "flx_values", "z", "u", "v", "Kx", "Ky", "Kz", "domain", "levels_scalar", "levels_list", "levels_reordered",
             "modes", "meas_pt", "bg", "analytic", "halo_none", "halo_resolved", "halo_zero", "halo_other", "halo_same_pads", "halo_other_py", "halo_other_px", "precision", "dispersion",
-            "const_numeric", "const_analytic"]
+            "const_numeric", "const_analytic", "levels_long_a", "levels_long_b"]
 
 
 def build(name):
@@ -76,6 +76,16 @@ def build(name):
         r["profiles"] = [2.5 * one, -1.5 * one, 0.6 * one, 0.9 * one, 0.5 * one]
         r["analytic"] = name == "const_analytic"
         r["levels"] = [2, 6]
+    elif name in ("levels_long_a", "levels_long_b"):
+        # a finely resolved column requested in full: more than a thousand levels; the two requests differ only in the middle of the
+        # list (two neighbouring levels exchanged)
+        zz = np.linspace(0.05, 4.0, 1101)
+        r["z"] = zz
+        r["profiles"] = [2.5 * (zz / 4.0) ** 0.2, -1.5 * (zz / 4.0) ** 0.2, 0.12 * zz + 0.01, 0.12 * zz + 0.01, 0.12 * zz + 0.01]
+        lv = list(range(1101))
+        if name == "levels_long_b":
+            lv[550], lv[551] = lv[551], lv[550]
+        r["levels"] = lv
     elif name == "flx_shape":
         r["srf_flx"] = np.zeros((12, 14))
     elif name == "flx_values":
